@@ -83,8 +83,9 @@ func (h *halfPipe) breakRead() {
 }
 
 type bufConn struct {
-	r, w *halfPipe
-	name string
+	r, w    *halfPipe
+	name    string
+	maxRead int // >0: Read returns at most this many bytes per call (deterministic short reads)
 }
 
 type bufAddr string
@@ -92,7 +93,12 @@ type bufAddr string
 func (a bufAddr) Network() string { return "buf" }
 func (a bufAddr) String() string  { return string(a) }
 
-func (c *bufConn) Read(p []byte) (int, error)  { return c.r.read(p) }
+func (c *bufConn) Read(p []byte) (int, error) {
+	if c.maxRead > 0 && len(p) > c.maxRead {
+		p = p[:c.maxRead]
+	}
+	return c.r.read(p)
+}
 func (c *bufConn) Write(p []byte) (int, error) { return c.w.write(p) }
 func (c *bufConn) Close() error {
 	c.w.closeWrite()
@@ -363,6 +369,7 @@ type firstFlight struct {
 	Suite     uint16
 	SessionID []byte
 	Resumed   bool   // server went straight to ChangeCipherSpec (abbreviated handshake)
+	LateAlert int    // alert description received after the ServerHello (-1: none)
 	MsgTypes  []byte // handshake message types seen in the flight, in order
 }
 
@@ -370,6 +377,7 @@ type firstFlight struct {
 // a ClientHello up to ServerHelloDone / ChangeCipherSpec / alert / EOF.
 func readFirstFlight(c io.Reader) (ff firstFlight, err error) {
 	var hand []byte
+	ff.LateAlert = -1
 	for {
 		hdr := make([]byte, 5)
 		if _, e := io.ReadFull(c, hdr); e != nil {
@@ -395,6 +403,8 @@ func readFirstFlight(c io.Reader) (ff firstFlight, err error) {
 				} else {
 					ff.Alert = -1
 				}
+			} else if len(body) == 2 {
+				ff.LateAlert = int(body[1])
 			}
 			return ff, nil
 		case 20:
